@@ -9,6 +9,16 @@ import (
 var emptyPair = object.Pair{Key: nil, Value: nil}
 
 func evalObjPair(node *ast.Pair, env *object.Env) (object.Pair, *object.PanErr) {
+	// NOTE: key is evaluated before value (the order written)
+	var k object.PanObject
+	if keyNeedsEval(node.Key) {
+		k = Eval(node.Key, env)
+
+		if e, ok := k.(*object.PanErr); ok {
+			return emptyPair, appendStackTrace(e, node.Key.Source())
+		}
+	}
+
 	v := Eval(node.Val, env)
 
 	if e, ok := v.(*object.PanErr); ok {
@@ -38,16 +48,33 @@ func evalObjPair(node *ast.Pair, env *object.Env) (object.Pair, *object.PanErr) 
 		return object.Pair{Key: strK, Value: v}, nil
 	}
 
-	k := Eval(node.Key, env)
-
-	if e, ok := k.(*object.PanErr); ok {
-		return emptyPair, appendStackTrace(e, node.Key.Source())
-	}
-
 	return object.Pair{Key: k, Value: v}, nil
 }
 
+// keyNeedsEval returns whether key is evaluated as an ordinal expression
+// (neither `a:` nor `^a:`).
+func keyNeedsEval(key ast.Expr) bool {
+	switch key.(type) {
+	case *ast.Ident:
+		return false
+	case *ast.PinnedIdent:
+		return false
+	default:
+		return true
+	}
+}
+
 func evalMapPair(node *ast.Pair, env *object.Env) (object.Pair, *object.PanErr) {
+	// NOTE: key is evaluated before value (the order written)
+	var k object.PanObject
+	if _, isPinned := node.Key.(*ast.PinnedIdent); !isPinned {
+		k = Eval(node.Key, env)
+
+		if err, ok := k.(*object.PanErr); ok {
+			return emptyPair, appendStackTrace(err, node.Key.Source())
+		}
+	}
+
 	v := Eval(node.Val, env)
 
 	if err, ok := v.(*object.PanErr); ok {
@@ -63,12 +90,6 @@ func evalMapPair(node *ast.Pair, env *object.Env) (object.Pair, *object.PanErr) 
 		}
 
 		return object.Pair{Key: k, Value: v}, nil
-	}
-
-	k := Eval(node.Key, env)
-
-	if err, ok := k.(*object.PanErr); ok {
-		return emptyPair, appendStackTrace(err, node.Key.Source())
 	}
 
 	return object.Pair{Key: k, Value: v}, nil
